@@ -7,6 +7,7 @@ import (
 	"os/exec"
 	"regexp"
 	"strings"
+	"syscall"
 	"time"
 
 	"github.com/gobuffalo/plush/v5"
@@ -75,6 +76,18 @@ func (s *c04stack) Pop() int {
 }
 func (s *c04stack) Push(v int) int { *s = append(*s, v); return len(*s) }
 func (s *c04stack) Clear() string  { *s = (*s)[:0]; return "" }
+
+type c04verr struct{}
+
+func (c04verr) Error() string { return "verr" }
+
+type c04terr string
+
+func (e c04terr) Error() string { return string(e) }
+
+type c04perr struct{}
+
+func (*c04perr) Error() string { return "perr" }
 
 type c04self struct{}
 
@@ -398,6 +411,20 @@ func init() {
 			"<%= for (v) in stack { %><%= for (w) in stack { %><%= stack.Pop() %><% } %><% } %>", "<%= for (v) in stack { %><%= stack.Clear() %>x<% } %>|<%= len(stack) %>"} {
 			st := c04stack{1, 2, 3, 4}
 			e.c04case("shrinking-slice", tm, false, map[string]interface{}{"stack": &st})
+		}
+		// helpers whose LAST result has a type that implements error BY VALUE (a struct, an errno-like integer, a
+		// named string) or is a concrete pointer type, nil or not: the render fails or succeeds, it does not panic
+		{
+			extra := map[string]interface{}{
+				"estruct": func() (string, c04verr) { return "s", c04verr{} }, "eerrno": func() (int, syscall.Errno) { return 1, syscall.Errno(2) }, "eerrno0": func() (int, syscall.Errno) { return 1, syscall.Errno(0) },
+				"etext": func() c04terr { return c04terr("t") }, "eptrnil": func() (string, *c04perr) { return "ok", nil }, "eptr": func() (string, *c04perr) { return "no", &c04perr{} },
+				"eiface": func() (string, fmt.Stringer) { return "ok", nil }, "earr": func() [2]error { return [2]error{} }, "efn": func() (string, func() error) { return "ok", nil },
+			}
+			for _, f := range []string{"estruct", "eerrno", "eerrno0", "etext", "eptrnil", "eptr", "eiface", "earr", "efn"} {
+				for _, form := range []string{"<%= X() %>", "<% let q = X() %>ok", "<%= if (X()) { %>y<% } %>", "<%= for (i) in [1] { %><%= X() %><% } %>"} {
+					e.c04case("error-result-kinds", strings.Replace(form, "X", f, 1), false, extra)
+				}
+			}
 		}
 		// block helpers called WITHOUT a block, alone and followed by what would replay the block
 		for _, tm := range []string{`<% contentFor("a") %><%= contentOf("a") %>`, `<% contentFor("a") %><%= contentOf("a", {"label": "x"}) %>`, `<% contentFor("a") %><%= contentOf("a") { %>d<% } %>`,
